@@ -74,6 +74,7 @@ def tasks(tier, seed):
         lab = "x".join(map(str, lens))
         for order in ("asc", "desc"):
             out.append({"fn": "product", "kwargs": {"lens": lens, "order": order}, "label": f"product/{lab}/{order}", "caps": {"max_seconds": 300}})
+        out.append({"fn": "sequential", "kwargs": {"lens": lens}, "label": f"sequential/{lab}"})
     for w in range(len(EXPRS)):
         for mode in ("product", "sequential"):
             out.append({"fn": "product_expr", "kwargs": {"which": w, "mode": mode}, "label": f"expr/{w}/{mode}"})
@@ -81,7 +82,6 @@ def tasks(tier, seed):
         out.append({"fn": "worker_pairing", "kwargs": {"keyorder": list(ko)}, "label": "worker/" + "".join(map(str, ko))})
     for ko in ((0, 2), (2, 0), (1, 2), (2, 1), (0, 1), (1, 0)):
         out.append({"fn": "worker_pairing", "kwargs": {"keyorder": list(ko)}, "label": "worker/" + "".join(map(str, ko))})
-        out.append({"fn": "sequential", "kwargs": {"lens": lens}, "label": f"sequential/{lab}"})
     for layout in ([1], [1, 1], [2], [1, 2], [2, 1, 1], [1, 2, 2]):
         for rows in (1, 2, 3):
             out.append({"fn": "custom", "kwargs": {"layout": layout, "rows": rows}, "label": f"custom/{'-'.join(map(str, layout))}/rows={rows}"})
